@@ -53,12 +53,23 @@ def baseline():
 
 BASE = baseline()
 
-def judge(events, allowed_read, workdir):
-    """list of problems for one run"""
+def judge(events, allowed_read, workdir, tz_allowed=False, in_place=None):
+    """list of problems for one run. tz_allowed: the run contains a local-time or zone-name filter.
+    in_place: the input file of an --in-place run (its temporary sibling jaq* may be created, written, renamed or removed)"""
     problems = []
     first_exec = True
+    tmp_fds = set()
     for e in events:
         n = e["name"]
+        if in_place:
+            # the documented exception: a temporary file next to the input file
+            p = e.get("path", "")
+            is_tmp = os.path.dirname(os.path.normpath(p if os.path.isabs(p) else os.path.join(workdir, p))) == os.path.dirname(in_place) and os.path.basename(p).startswith("jaq")
+            if n in ("open", "openat") and is_tmp: continue
+            if n in ("rename", "renameat", "renameat2") and is_tmp and os.path.normpath(os.path.join(workdir, e.get("path2", ""))) == in_place: continue
+            if n in ("unlink", "unlinkat") and is_tmp: continue
+            if n in ("chmod", "fchmodat") and os.path.normpath(os.path.join(workdir, p)) == in_place: continue
+            if n in ("write", "fchmod") : continue
         if n == "execve":
             if first_exec: first_exec = False; continue
             problems.append(f"starts a program: {e['raw']}"); continue
@@ -73,13 +84,15 @@ def judge(events, allowed_read, workdir):
                 problems.append(f"opens for writing: {e['raw']}"); continue
             ap = os.path.normpath(p if os.path.isabs(p) else os.path.join(workdir, p))
             if p in BASE or ap in BASE: continue
-            if any(ap == t or ap.startswith(t + "/") for t in TZ_OK): continue
+            if any(ap == t or ap.startswith(t + "/") for t in TZ_OK):
+                if tz_allowed: continue
+                problems.append(f"looks at the time-zone database although no local-time or zone-name filter is run: {e['raw']}"); continue
             if ap in allowed_read: continue
             if p == "" : continue
             problems.append(f"touches a path that is neither an input, a module, start-up nor the time-zone database: {e['raw']}")
     return problems
 
-def run_case(key, argv, files, allowed_names, stdin=b"", env_extra=None, expect_compiles=True):
+def run_case(key, argv, files, allowed_names, stdin=b"", env_extra=None, expect_compiles=True, tz_allowed=False, in_place=None):
     d = tempfile.mkdtemp(prefix="c06-")
     canary = os.path.join(d, "canary")
     os.makedirs(canary)
@@ -103,7 +116,7 @@ def run_case(key, argv, files, allowed_names, stdin=b"", env_extra=None, expect_
         events = parse_log(log) if os.path.exists(log) else []
         exit_line = [l for l in open(log, errors="replace") if l.startswith(("EXIT", "SIGNAL"))] if os.path.exists(log) else []
         allowed = {os.path.normpath(os.path.join(d, n)) for n in allowed_names}
-        problems = judge(events, allowed, d)
+        problems = judge(events, allowed, d, tz_allowed, os.path.join(d, in_place) if in_place else None)
         os.remove(log) if os.path.exists(log) else None
         after = sorted(os.listdir(d)) + sorted(os.listdir(canary))
         if exit_line and exit_line[-1].strip() == "EXIT 3" and expect_compiles: problems.append("machinery: the program of this case does not compile, nothing was executed: " + se.decode("utf-8", "replace")[:300])
@@ -117,10 +130,33 @@ def run_case(key, argv, files, allowed_names, stdin=b"", env_extra=None, expect_
 
 # ---------------------------------------------------------------- families
 
+# the local-time and zone-name filters: the only ones that may consult the time-zone database
+TZ_FILTERS = {"localtime", "strflocaltime", "strptime"}
+
+def time_cases():
+    """every date/time filter on well-formed inputs, one process each: only TZ_FILTERS may touch the time-zone database"""
+    progs = [("gmtime", "1709209800.5 | gmtime"), ("mktime", "[2024, 1, 29, 12, 30, 0, 4, 59] | mktime"), ("todate", "1709209800 | todate"), ("fromdate", "\"2024-02-29T12:30:00Z\" | fromdate"),
+             ("todateiso8601", "1709209800 | todateiso8601"), ("fromdateiso8601", "\"2024-02-29T12:30:00Z\" | fromdateiso8601"),             ("strftime", "1709209800 | strftime(\"%Y-%m-%dT%H:%M:%SZ %A %j %Z %z %s\")"), ("strftime on array", "[2024, 1, 29, 12, 30, 0, 4, 59] | strftime(\"%c\")"), ("now", "now | . > 0"),
+             ("gmtime|mktime", "1709209800 | gmtime | mktime"), ("gmtime|todate", "0 | gmtime | todate"), ("strptime without zone", "\"2024-02-29T12:30:00Z\" | strptime(\"%Y-%m-%dT%H:%M:%SZ\")"),
+             ("strptime with zone name", "\"10:00 CET\" | strptime(\"%H:%M %Z\")?"), ("localtime", "1709209800 | localtime"), ("strflocaltime", "1709209800 | strflocaltime(\"%H:%M %Z\")"), ("localtime|mktime", "1709209800 | localtime | mktime")]
+    out = []
+    for name, prog in progs:
+        tz = any(f in prog for f in TZ_FILTERS)
+        out.append((f"time filter: {name}", ["-n", "-c", prog], {}, [], {"tz_allowed": tz}))
+    return out
+
+def in_place_cases():
+    f = {"f.json": b"{\"a\": 1}\n"}
+    return [("--in-place success touches only the input file and its temporary sibling", ["-i", ".a += 1", "f.json"], f, ["f.json", "."], {"in_place": "f.json"}),
+            ("--in-place with an error", ["-i", ".a, error(\"x\")", "f.json"], f, ["f.json", "."], {"in_place": "f.json"}),
+            ("--in-place with halt", ["-i", ".a, halt", "f.json"], f, ["f.json", "."], {"in_place": "f.json"}),
+            ("--in-place with halt_error", ["-i", ".a, (\"bye\" | halt_error(7))", "f.json"], f, ["f.json", "."], {"in_place": "f.json"}),
+            ("--in-place with a canary path as data", ["-i", ".a = \"@D@/canary/secret\"", "f.json"], f, ["f.json", "."], {"in_place": "f.json"})]
+
 def filter_list():
     out = subprocess.run([VMC, "list-filters"], stdout=subprocess.PIPE, timeout=120).stdout
     fl = json.loads(out)
-    skip = {"halt", "halt_error", "repl", "tick", "bomb", "input", "inputs", "debug", "stderr", "until", "limit", "repeat", "range", "combinations", "error", "not"}
+    skip = {"halt", "halt_error", "repl", "tick", "bomb", "input", "inputs", "debug", "stderr", "until", "limit", "repeat", "range", "combinations", "error", "not"} | TZ_FILTERS
     return [(n, a) for n, a in fl if n not in skip]
 
 CANARIES = ["@D@/canary/secret", "@D@/canary/new-file", "file://@D@/canary/secret", "http://127.0.0.1:9/x", "127.0.0.1:9", "$(touch @D@/canary/pwned)", "`touch @D@/canary/pwned`", "| touch @D@/canary/pwned", "; touch @D@/canary/pwned",
@@ -147,7 +183,11 @@ def native_batches():
                     cases.append((f"natives arity {arity} chunk {k} ({mode}) with canary {c!r}", ["-n", "--arg", "c", c, pr], {}, []))
     # the excluded ones individually
     for prog in ["\"x\" | halt_error", "halt(7)", "$c | debug, stderr | 1", "input, [inputs]", "$c | error", "first(range(3)), first(limit(2; repeat($c)))", "$c | input_filename, $ENV.HOME, env.PATH, now, localtime, mktime? , (now | strflocaltime(\"%Z\")), (\"10:00 CET\" | strptime(\"%H:%M %Z\"))?"]:
-        cases.append((f"special filter: {prog}", ["-n", "--arg", "c", CANARIES[0], prog], {}, []))
+        cases.append((f"special filter: {prog}", ["-n", "--arg", "c", CANARIES[0], prog], {}, [], {"tz_allowed": any(f in prog for f in TZ_FILTERS)}))
+    # the local-time and zone-name filters on canary arguments (they may consult the time-zone database, nothing else)
+    for c in can[:4]:
+        prog = "$c | [(try localtime catch 0), (try strflocaltime($c) catch 0), (try strptime($c) catch 0), (try (0 | strflocaltime($c)) catch 0), (try (\"x\" | strptime($c)) catch 0)] | length"
+        cases.append((f"time-zone filters with canary {c!r}", ["-n", "--arg", "c", c, prog], {}, [], {"tz_allowed": True}))
     return cases
 
 ADVERSARIAL = {
@@ -185,9 +225,9 @@ def module_cases():
             ("slurpfile/rawfile named on the command line", ["-n", "--slurpfile", "s", "in.json", "--rawfile", "r", "in.json", "[$s, $r] | length"], files, allowed),
             ("a string that looks like an import is data", ["-n", "\"import \\\"@D@/canary/secret\\\" as $x;\" | ., (try fromjson catch 0)"], files, allowed)]
 
-cases = native_batches() + decoder_cases() + module_cases()
+cases = native_batches() + decoder_cases() + module_cases() + time_cases() + in_place_cases()
 with concurrent.futures.ThreadPoolExecutor(max_workers=16) as ex:
-    futs = [ex.submit(run_case, *c) for c in cases]
+    futs = [ex.submit(run_case, *c[:4], **(c[4] if len(c) > 4 else {})) for c in cases]
     for fu in concurrent.futures.as_completed(futs):
         key, outcome, problems, detail = fu.result()
         R.case(key, True, str(outcome[0] // 10))
